@@ -634,12 +634,12 @@ template <class T, class R> static T from_raw(const R& r) { static_assert(sizeof
 int main() {
   unsigned long compared = 0, mism = 0;
 %(body)s
-  std::printf("TV compared=%%lu mismatches=%%lu\n", compared, mism);
+  std::printf("TV compared=%%lu mismatches=%%lu unsupported=%%lu\n", compared, mism, tv::unsupported);
   return mism ? 4 : 0;
 }
 """
 
-def translation_validation(run, inst, info, hdr, spec_hdr_path, n_inputs, seed):
+def translation_validation(run, inst, info, hdr, spec_hdr_path, n_inputs, seed, regions=None):
     """returns dict(status, compared, wrappers, skipped, detail)"""
     import random
     res = {'inst': inst, 'status': 'skipped', 'compared': 0, 'wrappers': [], 'skipped': [], 'detail': ''}
@@ -683,6 +683,8 @@ def translation_validation(run, inst, info, hdr, spec_hdr_path, n_inputs, seed):
         body.append('      const Cand_%s& C = cands_%s[c];' % (entry, entry))
         body.extend(dl)
         body.append('      if (!pre_%s(%s)) continue;' % (entry, ', '.join(args_real)))
+        for rg in (regions or {}).get(entry, []):
+            body.append('      if (%s) continue;   /* known-finding region: the real code is known to misbehave here */' % rg)
         body.append('      auto real = %s(%s);' % (entry, ', '.join(args_real)))
         body.append('      auto gen  = cgen_%s(%s);' % (entry, ', '.join(args_raw)))
         body.append('      compared++;')
@@ -707,10 +709,10 @@ def translation_validation(run, inst, info, hdr, spec_hdr_path, n_inputs, seed):
     if rc != 0:
         res['status'] = 'unavailable'; res['detail'] = 'harness does not compile: ' + (err + out)[-800:]; return res
     rc, out, err, dt = sh([os.path.join(wd, 'tv')], timeout=300)
-    m = re.search(r'TV compared=(\d+) mismatches=(\d+)', out)
+    m = re.search(r'TV compared=(\d+) mismatches=(\d+) unsupported=(\d+)', out)
     if not m:
         res['status'] = 'unavailable'; res['detail'] = 'harness crashed: rc=%s %s' % (rc, (out + err)[-400:]); return res
-    res['compared'] = int(m.group(1)); res['mismatches'] = int(m.group(2))
+    res['compared'] = int(m.group(1)) - int(m.group(3)); res['mismatches'] = int(m.group(2)); res['not_comparable'] = int(m.group(3))
     res['status'] = 'agree' if int(m.group(2)) == 0 else 'MISMATCH'
     res['detail'] = '\n'.join(l for l in out.split('\n') if 'MISMATCH' in l)[:600]
     return res
@@ -822,7 +824,7 @@ def _main(a, pid, run, seed, t0):
         inst, defs = key
         try:
             return translation_validation(run, inst, run.inst_built[key], hdrs[inst], os.path.join(VERIF, 'spec', inst + '.h'),
-                                          600 if a.tier == 'quick' else 20000, seed)
+                                          600 if a.tier == 'quick' else 20000, seed, autos.get(inst))
         except Exception as e:
             return {'inst': inst, 'status': 'unavailable', 'detail': 'exception: %r' % (e,), 'compared': 0, 'wrappers': [], 'skipped': []}
     with ThreadPoolExecutor(max_workers=a.j) as ex:
